@@ -7,6 +7,7 @@ A witness is matched by (property, mechanism key).  Mechanism keys are computed 
 property code from the *generator's labels* (token class, form id, secret class ...), never
 from output hashes or random values.
 """
+import fnmatch
 import os
 import re
 
@@ -28,13 +29,24 @@ def load_known():
     return known
 
 
+def match(prop, key, known):
+    """Return the known-findings pattern covering (prop, key), or None.  Patterns may use
+    fnmatch wildcards (e.g. class=*) where a defect is independent of that label."""
+    if (prop, key) in known:
+        return key
+    for (p, pat) in known:
+        if p == prop and any(c in pat for c in "*?[") and fnmatch.fnmatchcase(key, pat):
+            return pat
+    return None
+
+
 def classify(prop, merged, known):
     seen = {}
     viol = []
     for v in merged["violations"]:
-        k = (prop, v["key"])
-        if k in known:
-            seen[v["key"]] = seen.get(v["key"], 0) + 1
+        pat = match(prop, v["key"], known)
+        if pat is not None:
+            seen[pat] = seen.get(pat, 0) + 1
         else:
             viol.append(v)
     lines = ["KNOWN-FINDING: property=%s %s" % (prop, known[(prop, k)]) for k in sorted(seen)]
